@@ -231,7 +231,7 @@ class Program:
             if inl:
                 self.reinlined = getattr(self, "reinlined", []) + ["%s:%s" % (name, q) for q in inl]
             from .canon import canonicalise
-            tree = canonicalise(tree)      # one spelling for equivalent comparisons / negated branches (see sa/canon.py)
+            tree = canonicalise(tree, rel)      # one spelling for equivalent comparisons / negated branches (see sa/canon.py)
             self.modules[name] = Module(name, path, rel, src, tree, is_pkg)
 
     # ---------------------------------------------------------------- collection
